@@ -416,4 +416,138 @@ Section MovingChoice.
         * exact Hsub2.
         * exact Hknown'.
   Qed.
+  (* ---------------------------------------------------------------- whole histories *)
+
+  Lemma stepev_c03 s Fin S b res : StepEv s Fin S b res ->
+    exists s' Fnew S' evs,
+      res = (s', evs, ROk) /\ Inv s' (Fin ++ Fnew) S' /\ Ext s' (Fin ++ Fnew) /\
+      StepKind s s' Fin Fnew S S' b /\
+      apply_all (ri r0) S evs = Some S' /\
+      (last_sent s' = last_sent s -> evs = []) /\
+      (forall fin, last_final fin evs = if f_irr (c_filter cfg) then last_opt Fnew fin else fin).
+  Proof.
+    intros (s' & Fnew & S' & kept & undone & redone & fresh & stalled & Hres & HS & HS' & Happ & Hab & HI' & HX' & Hasc & Hmono & Hlast & Hjk & Hq & Hkind).
+    eexists s', Fnew, S', _. split; [exact Hres|]. split; [exact HI'|]. split; [exact HX'|]. split; [exact Hkind|].
+    split; [|split].
+    - rewrite app_assoc, (apply_all_app _ _ _ _ _ Happ). apply apply_all_inert. apply late_evs_inert.
+    - intros E. destruct (Hq E) as (-> & -> & -> & -> & ->).
+      unfold undo_evs, new_evs, late_evs. destruct (f_irr (c_filter cfg)); reflexivity.
+    - intros fin. rewrite !last_final_app.
+      rewrite (last_final_quiet (undo_evs _ _ _ _)).
+      2:{ eapply Forall_impl; [|apply undo_evs_step]. cbn beta. auto. }
+      rewrite (last_final_quiet (new_evs _ _ _ _)).
+      2:{ eapply Forall_impl; [|apply new_evs_step]. cbn beta. auto. }
+      unfold late_evs. rewrite last_final_app, last_final_irr.
+      rewrite last_final_quiet.
+      2:{ eapply Forall_impl; [|apply stalled_events_step]. cbn beta. auto. }
+      destruct (f_irr (c_filter cfg)); reflexivity.
+  Qed.
+
+  Lemma run_follows : forall h s Fin S fc fin, Inv s Fin S -> Ext s Fin -> FcRel fc s Fin S ->
+    on_path (ri r0) S -> (f_irr (c_filter cfg) = true -> fin = hd_error (rev Fin)) ->
+    (forall b, In b h -> In b U) ->
+    c03_follows cfg (ri r0) fc S fin h (fk_run cfg s h) /\
+    c03_follow cfg (ri r0) fc S (oblock_id fin) h (fk_obs cfg s h) = true /\
+    c03_noise cfg fc h (fk_run cfg s h).
+  Proof.
+    induction h as [|b h IH]; intros s Fin S fc fin HI HX HR Hpath Hfin Hh; [repeat split|].
+    assert (Hb : In b U) by (apply Hh; left; reflexivity).
+    destruct (stepev_c03 s Fin S b _ (step_ev U r0 cfg Hnofail Hnew Hundo U_id U_uniq U_up L_id L_num L_up L_decl s Fin S b HI HX Hb))
+      as (s' & Fnew & S' & evs & Hstep & HI' & HX' & Hkind & Happ & Hquiet & Hlf).
+    pose proof (fc_follows_step fc s s' Fin Fnew S S' b HR HI HI' HX' Hb Hkind) as HR'.
+    pose proof (apply_all_path _ _ _ _ Hpath Happ) as Hpath'.
+    assert (Hfin' : f_irr (c_filter cfg) = true -> last_final fin evs = hd_error (rev (Fin ++ Fnew))).
+    { intros E. rewrite Hlf, E, (Hfin E). apply last_opt_app. }
+    destruct (IH s' (Fin ++ Fnew) S' (fstep fc b) (last_final fin evs) HI' HX' HR' Hpath' Hfin' (fun x Hx => Hh x (or_intror Hx)))
+      as (IH1 & IH2 & IH3).
+    assert (Htip : hd_error S' = fc_tip (fstep fc b)).
+    { rewrite (fr_tip _ _ _ _ HR'), (fr_top _ _ _ _ HR'). reflexivity. }
+    cbn [fk_run fk_obs c03_follows c03_follow c03_noise]. rewrite Hstep. cbn [c03_follows c03_follow c03_noise o_events o_head].
+    fold (fstep fc b). split; [|split].
+    - exists S'. split; [exact Happ|]. split; [exact Htip|]. split; [exact Hpath'|].
+      split; [|exact IH1]. intros E. rewrite (Hfin' E). symmetry. exact (fr_final _ _ _ _ HR').
+    - rewrite Happ, lastfin_ids. rewrite top_id_hd, Htip, N.eqb_refl. cbn [andb].
+      unfold head_info.
+      replace (match match last_sent s' with Some b0 => Some (bref b0, blib b0) | None => None end with
+               | Some (r, _) => ri r | None => 0 end) with (oblock_id (fc_tip (fstep fc b)))
+        by (rewrite (fr_tip _ _ _ _ HR'); destruct (last_sent s'); reflexivity).
+      rewrite N.eqb_refl. cbn [andb].
+      replace (negb (f_irr (c_filter cfg)) || (oblock_id (last_final fin evs) =? oblock_id (fc_final (fstep fc b)))) with true.
+      + cbn [andb]. exact IH2.
+      + destruct (f_irr (c_filter cfg)) eqn:E; [|reflexivity]. cbn [negb orb].
+        rewrite (Hfin' eq_refl), (fr_final _ _ _ _ HR'), N.eqb_refl. reflexivity.
+    - split; [|exact IH3]. intros Ht _. apply Hquiet.
+      rewrite <- (fr_tip _ _ _ _ HR'), <- (fr_tip _ _ _ _ HR). exact Ht.
+  Qed.
+
+  Theorem moving_lib_follows m h : rooted r0 m -> (forall b, In b h -> In b U) ->
+    c03_follows cfg (ri r0) (fc_init m) [] None h (fk_run cfg (fs_init m) h) /\
+    c03_follow cfg (ri r0) (fc_init m) [] 0 h (fk_obs cfg (fs_init m) h) = true /\
+    c03_noise cfg (fc_init m) h (fk_run cfg (fs_init m) h).
+  Proof.
+    intros Hm Hh.
+    apply (run_follows h (fs_init m) [] [] (fc_init m) None
+             (inv_init U r0 cfg L_id L_num L_up m Hm) (ext_init r0 L_id m Hm) (fcrel_init m Hm) I (fun _ => eq_refl) Hh).
+  Qed.
+  (* ---------------------------------------------------------------- noise blocks can be deleted *)
+
+  (* a block the reference ignores completely (same state, nothing recorded) leaves the model's state
+     unchanged and delivers nothing *)
+  Lemma fc_ignored_quiet fc s Fin S b : FcRel fc s Fin S -> Inv s Fin S -> In b U -> fstep fc b = fc ->
+    fk_step cfg s b = (s, [], ROk).
+  Proof.
+    intros HR HI Hb. pose proof HI as [Hdb _ _ _].
+    assert (Hdr : ((bnum b <? rn (fc_lib fc)) && match fc_tip fc with Some _ => true | None => false end) = dropped s b).
+    { rewrite (fr_lib _ _ _ _ HR), (fr_tip _ _ _ _ HR). reflexivity. }
+    assert (Hinc : (c_incl cfg && negb (match fc_tip fc with Some _ => true | None => false end) && (bid b =? ri (fc_lib fc)))
+                   = incl_first s b).
+    { rewrite (fr_lib _ _ _ _ HR), (fr_tip _ _ _ _ HR). unfold MovingLibInv.incl_first. destruct (last_sent s); reflexivity. }
+    unfold fstep, fc_step. rewrite Hdr, Hinc.
+    destruct (dropped s b) eqn:Hd; [intros _; exact (fk_step_dropped U cfg U_id s b Hb Hd)|].
+    assert (G : forall f', fc_recv f' = b :: fc_recv fc -> f' = fc -> fk_step cfg s b = (s, [], ROk)).
+    { intros f' Hr E. rewrite E in Hr. apply (f_equal (@length block)) in Hr. cbn [length] in Hr. lia. }
+    destruct (incl_first s b) eqn:Hni; [apply G; reflexivity|].
+    destruct (ulookup (bid b) (fc_recv fc)) as [x|] eqn:Lx.
+    - intros _. apply ulookup_some in Lx as [Hx Hid].
+      assert (x = b) by (apply U_uniq; [apply (fr_inU _ _ _ _ HR); exact Hx | exact Hb | exact Hid]). subst x.
+      destruct (fr_known _ _ _ _ HR b Hx) as [H|H]; [|congruence].
+      apply find_is_some_in in H as [e He].
+      exact (fk_step_old' U cfg U_id U_uniq s b e (di_inU U r0 _ Hdb) Hb He (di_wf U r0 U_id U_up _ Hdb) Hni).
+    - match goal with |- (if ?c then _ else _) = _ -> _ => destruct c end.
+      + destruct (ancestor_at _ _ _ _) as [a|]; [destruct (rn (fc_lib fc) <? bnum a)|]; apply G; reflexivity.
+      + apply G. reflexivity.
+  Qed.
+
+  Lemma run_split : forall h1 s Fin S fc, Inv s Fin S -> Ext s Fin -> FcRel fc s Fin S -> (forall b, In b h1 -> In b U) ->
+    exists s1 Fin1 S1, Inv s1 Fin1 S1 /\ Ext s1 Fin1 /\ FcRel (fc_after cfg fc h1) s1 Fin1 S1 /\
+      length (fk_run cfg s h1) = length h1 /\
+      forall h2, fk_run cfg s (h1 ++ h2) = fk_run cfg s h1 ++ fk_run cfg s1 h2.
+  Proof.
+    induction h1 as [|b h1 IH]; intros s Fin S fc HI HX HR Hh.
+    - exists s, Fin, S. split; [exact HI|]. split; [exact HX|]. split; [exact HR|]. split; [reflexivity|]. intros h2. reflexivity.
+    - assert (Hb : In b U) by (apply Hh; left; reflexivity).
+      destruct (stepev_c03 s Fin S b _ (step_ev U r0 cfg Hnofail Hnew Hundo U_id U_uniq U_up L_id L_num L_up L_decl s Fin S b HI HX Hb))
+        as (s' & Fnew & S' & evs & Hstep & HI' & HX' & Hkind & _).
+      pose proof (fc_follows_step fc s s' Fin Fnew S S' b HR HI HI' HX' Hb Hkind) as HR'.
+      destruct (IH s' (Fin ++ Fnew) S' (fstep fc b) HI' HX' HR' (fun x Hx => Hh x (or_intror Hx))) as (s1 & Fin1 & S1 & A1 & A2 & A3 & A4 & A5).
+      exists s1, Fin1, S1. split; [exact A1|]. split; [exact A2|]. split; [exact A3|].
+      cbn [fk_run app]. rewrite Hstep. cbn [length]. split; [rewrite A4; reflexivity|].
+      intros h2. rewrite A5. reflexivity.
+  Qed.
+
+  Lemma noise_deletion s Fin S fc h1 b h2 : Inv s Fin S -> Ext s Fin -> FcRel fc s Fin S ->
+    (forall x, In x (h1 ++ b :: h2) -> In x U) ->
+    fstep (fc_after cfg fc h1) b = fc_after cfg fc h1 ->
+    let T := fk_run cfg s (h1 ++ h2) in
+    fk_run cfg s (h1 ++ b :: h2) = firstn (length h1) T ++ ([], ROk) :: skipn (length h1) T.
+  Proof.
+    intros HI HX HR Hh Hig.
+    destruct (run_split h1 s Fin S fc HI HX HR (fun x Hx => Hh x (in_or_app _ _ _ (or_introl Hx))))
+      as (s1 & Fin1 & S1 & HI1 & _ & HR1 & Hlen & Happ).
+    assert (Hb : In b U) by (apply Hh; apply in_or_app; right; left; reflexivity).
+    pose proof (fc_ignored_quiet _ s1 Fin1 S1 b HR1 HI1 Hb Hig) as Hq.
+    cbv zeta. rewrite !Happ. cbn [fk_run]. rewrite Hq.
+    rewrite <- Hlen, firstn_app, Nat.sub_diag, firstn_all, skipn_app, Nat.sub_diag, skipn_all. cbn [firstn skipn app].
+    rewrite app_nil_r. reflexivity.
+  Qed.
 End MovingChoice.
